@@ -76,6 +76,10 @@ def gen_case(ci, labels, perm, kind, auto, etag=None):
     if auto:
         lines.append("    lazy_static! { pub static ref VEC: %s = %s; }" % (vec_t, ctor))
         lines.append("    lazy_static! { pub static ref TLS: S = auto_flush_from!(VEC, S, std::time::Duration::from_secs(3600)); }")
+        # the SAME declared struct instantiated a second time, for another vector (handles of one instance must not reach the other's cells)
+        ctor2 = ctor.replace('"m", "h"', '"m2", "h"')
+        lines.append("    lazy_static! { pub static ref VEC2: %s = %s; }" % (vec_t, ctor2))
+        lines.append("    lazy_static! { pub static ref TLS2: S = auto_flush_from!(VEC2, S, std::time::Duration::from_secs(3600)); }")
     lines.append("    pub fn run() -> serde_json::Value {")
     if auto:
         lines.append("        let vec: &%s = &VEC; let s: &S = &TLS;" % vec_t)
@@ -112,6 +116,15 @@ def gen_case(ci, labels, perm, kind, auto, etag=None):
             prev["n"] += len(forms) * mult
         else:
             expected.append({"labels": lab_map, "total": total * mult, "n": len(forms) * mult})
+    expected2 = []
+    for L, p in enumerate(leaves):
+        lab_map = {"l%d" % i: value_of(i, j, labels[i - 1]) for i, j in enumerate(p, 1)}
+        prev2 = next((e for e in expected2 if e["labels"] == lab_map), None)
+        if prev2 is not None:
+            prev2["total"] += 1000 + L; prev2["n"] += 1
+        else:
+            expected2.append({"labels": lab_map, "total": 1000 + L, "n": 1})
+    gen_case.last_expected2 = expected2
     lines.append("        let mut none_ok = true;")
     if not auto:
         lines.append('        none_ok &= s.try_get("__undeclared__").is_none();')
@@ -126,13 +139,24 @@ def gen_case(ci, labels, perm, kind, auto, etag=None):
         # i.e. be visible after ITS flush while the first thread's updates are still pending
         lines.append("        std::thread::spawn(|| { let s: &S = &TLS; %s s.flush(); }).join().unwrap();" % " ".join(pushes))
         lines.append("        for mf in prometheus::core::Collector::collect(vec) { for m in mf.get_metric() { mid.push(crate::pm::metric_json(m, mf.get_field_type())); } }")
+    if auto:
+        # second instance: every leaf gets 1000 + its number through the field path, then only the second instance is flushed
+        lines.append("        let s2: &S = &TLS2;")
+        for L, p in enumerate(leaves):
+            lines.append("        s2%s%s;" % ("".join(".%s" % fname(i, j) for i, j in enumerate(p, 1)), update(kind, 1000 + L)))
+        lines.append("        s2.flush();")
+        lines.append("        let mut out2 = vec![];")
+        lines.append("        for mf in prometheus::core::Collector::collect(&*VEC2) { for m in mf.get_metric() { out2.push(crate::pm::metric_json(m, mf.get_field_type())); } }")
     if kind.startswith("Local"):
         lines.append("        s.flush();")
     lines.append("        let mut out = vec![];")
     lines.append("        for mf in prometheus::core::Collector::collect(vec) { for m in mf.get_metric() {")
     lines.append("            out.push(crate::pm::metric_json(m, mf.get_field_type()));")
     lines.append("        } }")
-    lines.append('        serde_json::json!({"children": out, "children_mid": mid, "none_ok": none_ok})')
+    if auto:
+        lines.append('        serde_json::json!({"children": out, "children_mid": mid, "none_ok": none_ok, "children2": out2})')
+    else:
+        lines.append('        serde_json::json!({"children": out, "children_mid": mid, "none_ok": none_ok})')
     lines.append("    }")
     lines.append("}")
     return "\n".join(lines), expected
@@ -157,7 +181,7 @@ def run(ctx):
         kind, auto = KINDS[(ci + ctx.seed) % len(KINDS)]
         code, exp = gen_case(ci, d["labels"], d["perm"], kind, auto)
         src.append(code)
-        cases.append({"id": ci, "kind": kind, "auto": auto, "decl": d, "expected": exp})
+        cases.append({"id": ci, "kind": kind, "auto": auto, "decl": d, "expected": exp, "expected2": gen_case.last_expected2})
     # twins: a second declaration elsewhere in the same crate whose label_enum has the SAME name and the same variants but other
     # label values (plain <-> renamed).  Each declaration stands on its own: what one macro invocation saw must not leak into another
     import copy
@@ -171,7 +195,7 @@ def run(ctx):
         ci = len(cases)
         code, exp = gen_case(ci, d2["labels"], d2["perm"], c["kind"], c["auto"], etag=c["id"])
         src.append(code)
-        cases.append({"id": ci, "kind": c["kind"], "auto": c["auto"], "decl": d2, "expected": exp, "twin_of": c["id"]})
+        cases.append({"id": ci, "kind": c["kind"], "auto": c["auto"], "decl": d2, "expected": exp, "twin_of": c["id"], "expected2": gen_case.last_expected2})
     src.append("pub fn run_all() -> String {")
     src.append("    let mut out = vec![];")
     for c in cases:
@@ -220,6 +244,12 @@ def run(ctx):
             if mid != expmid:
                 wrongm = [(k, expmid.get(k), mid.get(k)) for k in set(expmid) | set(mid) if expmid.get(k) != mid.get(k)]
                 ctx.violation("auto-flush-thread-locality", "%s: after a second thread pushed through every accessor and flushed (first thread not yet flushed) the vector holds (labels, expected, got) %s" % (desc, wrongm[:3]), rp)
+                continue
+            got2 = children(x["ok"]["children2"])
+            exp2 = {tuple(sorted(e["labels"].items())): (e["total"], e["n"] if hist else None) for e in c["expected2"]}
+            if got2 != exp2:
+                wrong2 = [(k, exp2.get(k), got2.get(k)) for k in set(exp2) | set(got2) if exp2.get(k) != got2.get(k)]
+                ctx.violation("auto-flush-second-instance", "%s: the same struct instantiated with auto_flush_from! for a second vector, updated through its own handles and flushed: that vector holds (labels, expected, got) %s" % (desc, wrong2[:3]), rp)
                 continue
         nleaves += len(exp); nacc += sum(e["n"] for e in c["expected"])
         if got != exp:
